@@ -97,6 +97,22 @@ func (s *c06state) runCLITier() {
 	draws := s.sc.C06.PartialN
 	// leftover reports whether anything is left where the package was to go
 	leftover := func() bool { return !targetGone(target) }
+	// stale: in half of the cases where packaging itself fails (a source that
+	// cannot be read) a package from an earlier, successful build is already at
+	// the target path. "Leaves no file at the target path" is taken literally
+	// there: the command must not leave the old package standing as if it were
+	// the result of this build. (Not done for invalid settings: a command that
+	// could not load its configuration never came to packaging.)
+	stale := func(k int) string {
+		if (k+s.sc.Run)%2 != 0 {
+			return ""
+		}
+		if os.WriteFile(target, []byte("!<arch>\nstale package from an earlier build\n"), 0o644) != nil {
+			return ""
+		}
+		s.count("probe.cli_stale_target", 1)
+		return " (a package from an earlier build was at the target path before the command ran)"
+	}
 	check := func(format, class, cause string, r cliResult, wantCause []string) {
 		s.count("cli_runs", 1)
 		s.count("evaluations_extra", 1)
@@ -227,6 +243,7 @@ func (s *c06state) runCLITier() {
 				}
 				slog := filepath.Join(dir, "strace.log")
 				os.Remove(slog)
+				was := stale(fi)
 				r = rt.runCLI(w, w.Config, format, target, []string{"-f", "-o", slog, "-e", "trace=read,pread64", "-e", "inject=read,pread64:error=EIO:when=1+", "-P", src})
 				lb, _ := os.ReadFile(slog)
 				os.Remove(slog)
@@ -236,7 +253,7 @@ func (s *c06state) runCLITier() {
 					os.Remove(target)
 					break
 				}
-				check(format, "strace_read_eio."+rf.Kind, fmt.Sprintf("reading %s fails with EIO", rf.Path), r, []string{"input/output error"})
+				check(format, "strace_read_eio."+rf.Kind, fmt.Sprintf("reading %s fails with EIO%s", rf.Path, was), r, []string{"input/output error"})
 				break
 			}
 			// a source file that is there when it is looked at (stat) and gone
@@ -258,6 +275,7 @@ func (s *c06state) runCLITier() {
 					}
 					slog := filepath.Join(dir, "strace.log")
 					os.Remove(slog)
+					was := stale(fi + done + 1)
 					r = rt.runCLI(w, w.Config, format, target, []string{"-f", "-o", slog, "-e", "trace=openat,open", "-e", "inject=openat,open:error=ENOENT:when=1+",
 						// (strace compares the path argument as the process spells it)
 						"-P", src, "-P", rf.Path, "-P", "./" + rf.Path, "-P", "../" + rf.Path})
@@ -269,7 +287,7 @@ func (s *c06state) runCLITier() {
 						continue
 					}
 					done++
-					check(format, "strace_open_enoent."+rf.Kind, fmt.Sprintf("%s is there when it is looked at but gone when it is opened (ENOENT from openat)", rf.Path), r, []string{"no such file"})
+					check(format, "strace_open_enoent."+rf.Kind, fmt.Sprintf("%s is there when it is looked at but gone when it is opened (ENOENT from openat)%s", rf.Path, was), r, []string{"no such file"})
 				}
 			}
 		} else {
@@ -298,8 +316,9 @@ func (s *c06state) runCLITier() {
 				}
 				switch mode {
 				case 0:
+					was := stale(fi / 3)
 					r = rt.runCLI(w, w.Config, format, target, nil)
-					check(format, "missing."+rf.Kind, "referenced "+rf.Kind+" "+rf.Path+" is missing", r, []string{filepath.Base(rf.Path), "no such file", "no matching files"})
+					check(format, "missing."+rf.Kind, "referenced "+rf.Kind+" "+rf.Path+" is missing"+was, r, []string{filepath.Base(rf.Path), "no such file", "no matching files"})
 				case 1:
 					leftover = dirLeft
 					r = rt.runCLI(w, w.Config, format, tdir, nil)
